@@ -18,6 +18,7 @@ import (
 	"github.com/ovrclk/akash/pubsub"
 	metricsutils "github.com/ovrclk/akash/util/metrics"
 	"github.com/ovrclk/akash/util/runner"
+	"github.com/ovrclk/akash/util/verifhook"
 	dtypes "github.com/ovrclk/akash/x/deployment/types"
 	mtypes "github.com/ovrclk/akash/x/market/types"
 	"github.com/tendermint/tendermint/libs/log"
@@ -165,6 +166,7 @@ func (o *order) run(checkForExistingBid bool) {
 	}
 loop:
 	for {
+		verifhook.Emit("bidengine.order.loop", o)
 		select {
 		case <-o.lc.ShutdownRequest():
 			break loop
